@@ -21,7 +21,7 @@
    KOk w: memory = stored rows, one active keyset = w_active, all other ids smaller.  The bit-level derivation is C11 (c09-keygen stream).
 *)
 From Coq Require Import ZArith List Bool.
-From Verif Require Import Model Sem InvDb InvSwap InvMint InvMelt Corollaries Queries Footprint HRel Global GlobalQuote GlobalValue GlobalErr GlobalQuery GlobalMelt GlobalKeys Cuts CutOrder Conc Races GlobalBalance GlobalLedger Reconf.
+From Verif Require Import Model Sem InvDb InvSwap InvMint InvMelt Corollaries Queries Footprint HRel Global GlobalQuote GlobalValue GlobalErr GlobalQuery GlobalMelt GlobalKeys Cuts CutOrder Conc Races GlobalBalance GlobalLedger Reconf Trace Admin AdminProofs.
 Import ListNotations.
 Open Scope Z_scope.
 
@@ -37,6 +37,24 @@ Theorem C09_reconf_keeps_keysets : forall (segs : list (config * list hitem)) (w
        ks_ext (d_ks (w_db w)) (d_ks (w_db (hrun_cfgs w segs))).
 Proof. exact @reconf_keeps_keysets. Qed.
 Print Assumptions C09_reconf_keeps_keysets.
+
+Theorem C09_admin_rotate_is_rotate : forall (cfg : config) (w : world) (r : areq) (fee : Z),
+       is_rotation r = Some fee ->
+       fst (admin_step w r) = fst (step cfg no_fault w (ORotate fee)) /\ 0 <= fee <= int_max.
+Proof. exact @admin_rotate_is_rotate. Qed.
+Print Assumptions C09_admin_rotate_is_rotate.
+
+Theorem C09_admin_rotate_bad_fee : forall (w : world) (t : fee_text),
+       is_rotation (ARotate (Some t)) = None -> snd (admin_step w (ARotate (Some t))) = AErr (-32000) 3.
+Proof. exact @admin_rotate_bad_fee. Qed.
+Print Assumptions C09_admin_rotate_bad_fee.
+
+Theorem C09_admin_readonly : forall (w : world) (r : areq),
+       is_rotation r = None ->
+       let w' := fst (admin_step w r) in
+       w_db w' = w_db w /\ w_ln w' = w_ln w /\ w_mem w' = w_mem w /\ w_active w' = w_active w.
+Proof. exact @admin_readonly. Qed.
+Print Assumptions C09_admin_readonly.
 
 Theorem C09_cut_keeps_keysets : forall (cfg : config) (mem_ks : list ksrow) (active : Z) (o : op) (n : nat) (f : oracle) (w : world),
        match o with
@@ -97,13 +115,24 @@ Proof. exact @check_outputs_active. Qed.
 Print Assumptions C09_check_outputs_active.
 
 Theorem C09_tx_fees_per_keyset : forall (mem_ks : list ksrow) (ins : list proof),
-       tx_fees mem_ks ins =
-       (fold_left
-          (fun (acc : Z) (p : proof) =>
-           add64 acc match find_ks (p_ks p) mem_ks with
-                     | Some k => k_fee k
-                     | None => 0
-                     end) ins 0 + 999) / 1000.
+       (forall p : proof, In p ins -> 0 <= fee_of mem_ks p) ->
+       tx_fees mem_ks ins = (Z.min (true_ppk mem_ks ins) (two64 - 1) + 999) / 1000.
 Proof. exact @tx_fees_per_keyset. Qed.
 Print Assumptions C09_tx_fees_per_keyset.
+
+Theorem C09_tx_fees_wrapping_refuted : let ks := [{| k_id := 0; k_fee := 9223372036854775807; k_active := true |}] in
+       let p :=
+         {|
+           p_secret := 1;
+           p_amount := 64;
+           p_ks := 0;
+           p_C := CSig 0 64 1;
+           p_wit := 0;
+           p_long := false;
+           p_cond := true;
+           p_sigall := false
+         |} in
+       tx_fees_wrapping ks [p; p] = 0 /\ tx_fees ks [p; p] = 18446744073709552.
+Proof. exact @tx_fees_wrapping_refuted. Qed.
+Print Assumptions C09_tx_fees_wrapping_refuted.
 
